@@ -109,7 +109,7 @@ func runOne(k *bnet.Keys, c cfg, devs []vrt.Dev, labels bool) *explore.Exec {
 	var results []*reqResult
 	var late, after *reqResult
 	start := time.Unix(common.TimeOfRound(k.Period, k.Genesis, L), 0).Add(200 * time.Millisecond)
-	s := vrt.Run(vrt.Options{Devs: devs, MaxSteps: 200000, Labels: labels, Watchdog: 20 * time.Second, Start: start, Until: start.Add(4 * k.Period)}, func() {
+	s := vrt.Run(vrt.Options{Devs: devs, MaxSteps: 200000, Labels: labels, Watchdog: 60 * time.Second, Start: start, Until: start.Add(4 * k.Period)}, func() {
 		ctx, stop := context.WithCancel(dlog.ToContext(context.Background(), fix.Logger()))
 		defer stop()
 		h, err := dhttp.New(ctx, "verif")
